@@ -19,7 +19,7 @@ import (
 
 func TestMain(m *testing.M) {
 	document.SetGlobalLevel(document.LogLevelSilent)
-	kit.TestMain(m, 500, 8000)
+	kit.TestMain(m, 500, 6000)
 }
 
 // Case is one history: Ops build a document from scratch (with save/open cycles in between);
@@ -127,7 +127,7 @@ var drawnIDs = []string{"R1a2b", "id5", "_x", "rId007", "docRId12", "rId3a", "Rc
 
 func genForeign(t *rapid.T) *Foreign {
 	f := &Foreign{
-		Scheme: rapid.SampledFrom([]string{"keep", "reverse", "shift", "shift", "sparse", "hole", "hole", "drawn", "mixed"}).Draw(t, "scheme"),
+		Scheme: rapid.SampledFrom([]string{"hole", "shift", "drawn", "mixed", "sparse", "hole", "shift", "drawn", "keep", "reverse"}).Draw(t, "scheme"),
 		Off:    rapid.IntRange(0, 9).Draw(t, "off"),
 		Stride: rapid.IntRange(2, 5).Draw(t, "stride"),
 		Styles: rapid.SampledFrom([]string{"rId1", "rId1", "fixed", "fixed", "last", "absent"}).Draw(t, "styles"),
@@ -155,7 +155,7 @@ func genForeign(t *rapid.T) *Foreign {
 
 func genCase(t *rapid.T) Case {
 	var c Case
-	foreign := rapid.IntRange(0, 9).Draw(t, "mode") >= 5
+	foreign := rapid.IntRange(0, 9).Draw(t, "mode") < 6
 	if foreign {
 		c.Ops = history(t, 0, kit.Scale(8, 16))
 		// a foreign package is interesting when it has some relationships to begin with
